@@ -128,6 +128,12 @@ def one_run(cfg, path, mode, fault=None, observer=None, fault_exc=InjectedFault)
     if mode == "path":
         kw = recorded.sample_kwargs(cfg, ckpt_path=path)
         res = smcrun.run(a, cfg["n"], cfg["sampler"], kw, max_calls=5000)
+    elif mode == "auto_explicit":
+        # inside a context with another cadence the call names the same file and its own cadence explicitly: the explicit
+        # request is what counts
+        kw = recorded.sample_kwargs(cfg, ckpt_path=path)
+        with a.auto_checkpoint(path, every=1 if cfg["ckpt_every"] != 1 else 2):
+            res = smcrun.run(a, cfg["n"], cfg["sampler"], kw, max_calls=5000)
     else:
         kw = recorded.sample_kwargs(cfg)
         res = None
@@ -170,7 +176,7 @@ def faults_case(case, counters, viol, nontrivial):
     g = np.random.default_rng(case["seed"])
     n = int(g.integers(8, 20))
     cfg = mk_cfg(g, case, n)
-    mode = "auto" if case["k"] % 2 else "path"
+    mode = ["path", "auto", "auto_explicit", "auto"][case["k"] % 4]
     prepopulate = case["k"] % 3 == 0
     shown = {"n": n, "sampler": cfg["sampler"], "xp": cfg["xp"], "opts": cfg["opts"], "every": cfg["ckpt_every"], "mode": mode, "file": "left by a bigger run" if prepopulate else "fresh"}
     where = f"{shown}"
